@@ -30,8 +30,8 @@ ASSUMPTIONS = [
     "attribute order and handler order are not compared",
 ]
 MAIN = "file:///zcv/main.conf"
-SECTION_DTS = ("zcv.dt.wrap", "zcv.dt.wrap2")
-VALUE_DTS = gen.KEY_DATATYPES + ["zcv.dt.evenint", "zcv.dt.evenint"]
+SECTION_DTS = ("zcv.dt.wrap", "zcv.dt.wrap2", "zcv.dtalt.wrap", "zcv.dtalt.wrap")
+VALUE_DTS = gen.KEY_DATATYPES + ["zcv.dt.evenint", "zcv.dt.evenint", "zcv.dtalt.evenint", "zcv.dtalt.evenint"]
 KEYTYPES = ["basic-key", "identifier", "ipaddr-or-hostname", "zcv.dt.basickey"]
 
 gen.NAME_POOL.setdefault("zcv.dt.basickey", gen.NAME_POOL["basic-key"])
